@@ -123,8 +123,8 @@ Record net_case := {
 }.
 
 Definition net_of (c : net_case) : netlist BQCf :=
-  {| comps := map (fun t => match t with (id, n, M) => {| c_id := id; c_n := n; c_S := mxl M |} end)
-                  (nc_comps c);
+  {| comps := map (fun t => match t with (id, n, M) =>
+                     lst_of_comp {| c_id := id; c_n := n; c_S := mxl M |} end) (nc_comps c);
      conns := nc_conns c; expo := nc_expo c |}.
 
 Definition net_solve (c : net_case) : result (lst BQCf) :=
@@ -184,4 +184,52 @@ Definition en_verdict (c : en_case) : verdict :=
                            | EPassive => obs_passive tol9 o (en_us c) end) (en_kinds c)
       then Agree else Differ
   | v, _ => v
+  end.
+
+(* ---- C02: hierarchies ---- *)
+From Lekkersim Require Import Hier.
+
+Inductive hcirc :=
+| HLeaf (id n : nat) (M : lmx)
+| HSub (subs : list hcirc) (cs : list conn) (ex : list spin).
+
+Fixpoint circ_of (h : hcirc) : circ BQCf :=
+  match h with
+  | HLeaf id n M => Leaf (lst_of_comp {| c_id := id; c_n := n; c_S := mxl M |})
+  | HSub subs cs ex => Sub (map circ_of subs) cs ex
+  end.
+
+Record hier_case := { hc_circ : hcirc; hc_obs : obs lmx }.
+
+Definition seq_pick (Ls : list (lst BQCf)) (cs : list conn) : list (nat * nat) :=
+  seq_sched (length Ls).
+
+Definition obs_verdict (r : result (lst BQCf)) (ex : list spin) (o : obs lmx) : verdict :=
+  match r, o with
+  | Ok T, Obs m =>
+      if forallb (fun p => mem p (l_pins T)) ex then
+        if expo_close tol9 T ex m then Agree else Differ
+      else Differ
+  | Ok _, Raised => ImplError
+  | Err _, Raised => BothReject
+  | Err _, Obs _ => ModelUndefined
+  end.
+
+(* the nested model against the observation *)
+Definition hier_verdict (c : hier_case) : verdict :=
+  let ci := circ_of (hc_circ c) in
+  obs_verdict (solve_hier seq_pick ci) (top_expo ci) (hc_obs c).
+
+(* the equivalent single-level circuit against the same observation *)
+Definition flat_verdict (c : hier_case) : verdict :=
+  let ci := circ_of (hc_circ c) in
+  obs_verdict (solve (inline ci) (seq_sched (length (leaves ci)))) (top_expo ci) (hc_obs c).
+
+Definition hier_both_verdict (c : hier_case) : verdict :=
+  match hier_verdict c, flat_verdict c with
+  | Agree, Agree => Agree
+  | BothReject, BothReject => BothReject
+  | Differ, _ | _, Differ => Differ
+  | ImplError, _ | _, ImplError => ImplError
+  | _, _ => ModelUndefined
   end.
